@@ -65,6 +65,12 @@ class Check:
         self.programs = 0
         self.nontrivial = set()
         self.validation = {"points": 0, "agree": 0, "skipped_unrepresentable": 0}
+        if self.tier == "thorough" and engine != "K":
+            xdir = os.path.join(VERIF, "build", "xcheck", pid)
+            os.makedirs(xdir, exist_ok=True)
+            for f in os.listdir(xdir):
+                os.unlink(os.path.join(xdir, f))
+            os.environ["VERIF_XCHECK_DIR"] = xdir
 
     # ------------------------------------------------------------------ bookkeeping
     def sample(self, obj):
@@ -110,8 +116,44 @@ class Check:
     def malfunction(self, msg):
         self.malfunctions.append(msg)
 
+    # ------------------------------------------------------------------ second opinion (thorough tier)
+    def cross_check(self):
+        """re-decide the dumped sample of queries with /usr/bin/z3 (4.8.12) and cvc5 and compare the verdicts"""
+        import glob
+        import subprocess
+        xdir = os.environ.get("VERIF_XCHECK_DIR")
+        if not xdir or not os.path.isdir(xdir):
+            return
+        files = sorted(glob.glob(os.path.join(xdir, "*.smt2")))[:400]
+        agree = {"z3-4.8.12": 0, "cvc5": 0}
+        inconclusive = {"z3-4.8.12": 0, "cvc5": 0}
+        for f in files:
+            want = os.path.basename(f).split("-")[0]
+            for name, cmd in (("z3-4.8.12", ["/usr/bin/z3", "-T:20", f]), ("cvc5", ["cvc5", "--lang", "smt2", "--tlimit=20000", f])):
+                try:
+                    r = subprocess.run(cmd, stdout=subprocess.PIPE, stderr=subprocess.STDOUT, text=True, timeout=40)
+                    lines = [l.strip() for l in r.stdout.splitlines() if l.strip()]
+                    got = lines[0] if lines else "?"
+                    if any(l.startswith("(error") for l in lines):
+                        got = "error"
+                except subprocess.TimeoutExpired:
+                    got = "timeout"
+                if got == want:
+                    agree[name] += 1
+                elif got in ("sat", "unsat"):
+                    keep = os.path.join(VERIF, "replays", "xcheck-%s-%s" % (self.pid, os.path.basename(f)))
+                    import shutil
+                    shutil.copy(f, keep)
+                    self.malfunction("solvers disagree on %s: z3 5.1 says %s, %s says %s" % (keep, want, name, got))
+                else:
+                    inconclusive[name] += 1
+        self.cov["cross_solver"] = {"queries_rechecked": len(files), "agree": agree, "inconclusive": inconclusive}
+        for f in glob.glob(os.path.join(xdir, "*.smt2")):
+            os.unlink(f)
+
     # ------------------------------------------------------------------ finish
     def finish(self):
+        self.cross_check()
         wall = time.time() - self.t0
         cov = dict(self.cov)
         cov.update({
@@ -256,6 +298,14 @@ def interior_and_boundary_points(q, pieces, max_pieces=64, rng=None):
             pts.append(m)
         for j, c in enumerate(p.conds):
             if c.strict:
+                # a point a hair (2^-34 < 1e-8) on the strict side of the hyperplane: must still be routed here
+                if any(c.a):
+                    # small coordinates only: there the f64 evaluation of a.x - b resolves 2^-34 exactly
+                    near = [zcon(d, xs) for i, d in enumerate(p.conds) if i != j] + [zlin(c.a, xs) == zfrac(c.b + Fraction(1, 2**34))] + [
+                        z3.And(x <= 4, x >= -4) for x in xs]
+                    m, ok = q.witness_f64(near, grid_bits=40)
+                    if m is not None and ok:
+                        pts.append(m)
                 continue
             eqs = [zcon(d, xs) for i, d in enumerate(p.conds) if i != j] + [zlin(c.a, xs) == zfrac(c.b)]
             m, ok = q.witness_f64(eqs)
@@ -435,6 +485,10 @@ def replay_targets(chk, items, conv, sig_prefix, describe=None):
                 d = compare_eval(real, tp, xf)
                 if d is None:
                     chk.validation["agree"] += 1
+                elif d.startswith("real evaluation panics"):
+                    chk.report("%s/%s/evaluate-panics" % (sig_prefix, t.sig), "%s %s at x=%s: %s" % (case["id"], t.label, [float(v) for v in xf], d),
+                               {"kind": "eval", "case": {"id": case["id"], "steps": case["steps"][:t.upto]}, "tree": t.tree,
+                                "point": point_hex(xf), "expected": None, "meta": case.get("meta")})
                 else:
                     chk.malfunction("encoding of %s/%s disagrees with the real evaluate at %s: %s" % (case["id"], t.label, ps, d))
                 continue
